@@ -5,9 +5,11 @@ import (
 	"fmt"
 	"net/http"
 	"net/http/httptest"
+	"net/url"
 	"os"
 	"sort"
 	"strings"
+	"sync"
 	"time"
 
 	"github.com/golang-jwt/jwt/v4"
@@ -162,7 +164,7 @@ func checkC09(r *mc.Report, thorough bool) {
 		depth = 6
 	}
 	r.Explore(mc.Config{Name: fmt.Sprintf("login-placements-d%d", depth), Prune: true, SplitDepth: 2,
-		Rule: fmt.Sprintf("explicit-state search over user placements: histories of %d writes over {root>G1, root>G2, G1>G2, root>U, G1>U, G2>U} x {live, deleted} (move, mirror, delete, re-add, delete/undelete containing groups); in every state: login with the right credentials, a wrong password, 15 near misses (case, blanks, prefix, longer, empty, another user's e-mail or password, SQL wildcards) and for the default admin, compared with reachability of the root through non-deleted edges; issued token validates; node listing within the subtrees of the user's live placements", depth)},
+		Rule: fmt.Sprintf("explicit-state search over user placements: histories of %d writes over {root>G1, root>G2, G1>G2, root>U, G1>U, G2>U} x {live, deleted} (move, mirror, delete, re-add, delete/undelete containing groups); in every state: login (auth.user request and POST /v1/auth) with the right credentials, a wrong password, 15 near misses (case, blanks, prefix, longer, empty, another user's e-mail or password, SQL wildcards) and for the default admin, compared with reachability of the root through non-deleted edges; issued token validates; node listing within the subtrees of the user's live placements", depth)},
 		c09LoginBody(depth))
 	sh.CleanupTemplate()
 	r.Assume("HTTP handler driven through ServeHTTP (api.NewV1Handler with the store's authorizer and an auth token); header values are passed verbatim")
@@ -196,6 +198,9 @@ func c09BusToken(r *mc.Report) {
 	p.Done()
 	r.AddSample(map[string]any{"part": "bus-token", "cases": res.Samples})
 }
+
+// placement states whose HTTP login has been checked in this process
+var c09HTTPChecked sync.Map
 
 func c09HTTP(r *mc.Report, thorough bool) {
 	inst, err := sh.New(sh.Opts{AuthToken: c09Token})
@@ -361,6 +366,7 @@ func c09LoginBody(depth int) mc.Body {
 		}
 		clock := int64(100)
 		tick := func() time.Time { clock++; return time.Unix(0, clock) }
+		v1 := api.NewV1Handler(api.ServerArgs{JwtAuth: inst.Store.GetAuthorizer(), AuthToken: c09Token, Nc: inst.Nc})
 		u := data.User{ID: "U", FirstName: "f", LastName: "l", Email: "u@x.com", Pass: "pw"}
 		if err := client.SendNodePoints(inst.Nc, "U", u.ToPoints(), true); err != nil {
 			return mc.Outcome{Violation: "HARNESS: " + err.Error(), Key: "harness"}
@@ -420,12 +426,56 @@ func c09LoginBody(depth int) mc.Body {
 			if nodes, _ := client.UserCheck(inst.Nc, u.Email, "wrong"); len(nodes) > 0 {
 				return &mc.Outcome{Violation: "login with a wrong password returned nodes in state " + key(), Key: "login-wrong-password"}
 			}
+			// the same through the HTTP login endpoint (POST /v1/auth with form values)
+			httpLogin := func(email, pass string) (int, string) {
+				form := url.Values{"email": {email}, "password": {pass}}
+				req := httptest.NewRequest("POST", "http://x/auth", strings.NewReader(form.Encode()))
+				req.Header.Set("Content-Type", "application/x-www-form-urlencoded")
+				rec := httptest.NewRecorder()
+				v1.ServeHTTP(rec, req)
+				var a data.Auth
+				_ = json.Unmarshal(rec.Body.Bytes(), &a)
+				return rec.Code, a.Token
+			}
+			// (evaluated once per placement state and process, the verdict is kept: the answer depends on the placements only)
+			if v, ok := c09HTTPChecked.Load(key()); ok {
+				if o, _ := v.(*mc.Outcome); o != nil {
+					return o
+				}
+			}
+			httpDone := false
+			if _, ok := c09HTTPChecked.Load(key()); ok {
+				httpDone = true
+			}
+			keep := func(o *mc.Outcome) *mc.Outcome { c09HTTPChecked.Store(key(), o); return o }
+			code, tok := 0, ""
+			if !httpDone {
+				code, tok = httpLogin(u.Email, u.Pass)
+			}
+			if !httpDone && (code == 200 && tok != "") != want {
+				return keep(&mc.Outcome{Violation: fmt.Sprintf("placements {%s}: POST /v1/auth with the user's credentials answered %d (token issued: %v); user connected to the root = %v", key(), code, tok != "", want), Key: "http-login-differs-from-reachability"})
+			}
+			if want && !httpDone {
+				req := httptest.NewRequest("GET", "http://x/", nil)
+				req.Header.Set("Authorization", "Bearer "+tok)
+				if ok, uid := inst.Store.GetAuthorizer().Valid(req); !ok || uid != "U" {
+					return keep(&mc.Outcome{Violation: fmt.Sprintf("token issued by POST /v1/auth does not validate (ok=%v user=%q)", ok, uid), Key: "issued-token-invalid"})
+				}
+				for _, cr := range [][2]string{{u.Email, "pw "}, {u.Email, " pw"}, {u.Email + " ", u.Pass}, {u.Email, "PW"}} {
+					if code, tok := httpLogin(cr[0], cr[1]); code == 200 && tok != "" {
+						return keep(&mc.Outcome{Violation: fmt.Sprintf("POST /v1/auth with e-mail %q and password %q (the user has %q / %q) issued a token", cr[0], cr[1], u.Email, u.Pass), Key: "login-near-miss-credentials"})
+					}
+				}
+			}
 			// near misses: the e-mail and the password must match exactly
 			for _, cr := range map[bool][][2]string{false: nil, true: {{u.Email, ""}, {u.Email, "PW"}, {u.Email, "pw "}, {u.Email, " pw"}, {u.Email, "p"}, {u.Email, "pww"},
-				{"U@X.COM", u.Pass}, {"u@x.com ", u.Pass}, {" u@x.com", u.Pass}, {"u@x.co", u.Pass}, {"", u.Pass}, {"admin@admin.com", u.Pass}, {u.Email, "admin"}, {"%", "%"}, {"u@x.com' OR '1'='1", u.Pass}}}[want] { // (only where the right credentials succeed)
+				{"U@X.COM", u.Pass}, {"u@x.com ", u.Pass}, {" u@x.com", u.Pass}, {"u@x.co", u.Pass}, {"", u.Pass}, {"admin@admin.com", u.Pass}, {u.Email, "admin"}, {"%", "%"}, {"u@x.com' OR '1'='1", u.Pass}}}[want && !httpDone] { // (only where the right credentials succeed; once per state)
 				if nodes, _ := client.UserCheck(inst.Nc, cr[0], cr[1]); len(nodes) > 0 {
-					return &mc.Outcome{Violation: fmt.Sprintf("login with e-mail %q and password %q (the user has %q / %q) returned nodes in state %s", cr[0], cr[1], u.Email, u.Pass, key()), Key: "login-near-miss-credentials"}
+					return keep(&mc.Outcome{Violation: fmt.Sprintf("login with e-mail %q and password %q (the user has %q / %q) returned nodes in state %s", cr[0], cr[1], u.Email, u.Pass, key()), Key: "login-near-miss-credentials"})
 				}
+			}
+			if !httpDone {
+				c09HTTPChecked.Store(key(), (*mc.Outcome)(nil))
 			}
 			if nodes, _ := client.UserCheck(inst.Nc, "", ""); len(nodes) > 0 {
 				return &mc.Outcome{Violation: "login with empty credentials returned nodes in state " + key(), Key: "login-empty-credentials"}
